@@ -50,7 +50,7 @@ func TestVerifC12Suppress(t *testing.T) {
 	defer func() { system.Conf.CgroupRootDir = oldRoot; system.UseCgroupsV2.Store(oldV2) }()
 	base := t.TempDir()
 
-	n := h.N(3000, 40000)
+	n := h.N(2000, 40000)
 	for idx := 0; idx < n; idx++ {
 		r := h.Begin(idx)
 		if r == nil {
